@@ -211,3 +211,71 @@ def c14_jobs(tier):
         if tier != 'quick':
             for (n, cap) in [(2, 2), (2, 4)]: js.append(ops_job(op, 'Tr', n, cap, witness=['normal return', 'reallocating path']))
     return _nn(js)
+
+# ================================================================ two-container grids
+from .jobs import two_job, OPS2_ALL, A_POCCA, A_POCMA, A_POCS, A_IAE, A_SOCC
+
+SAME_CELLS = [(2, 2, 2, 2), (2, 2, 2, 4), (2, 2, 4, 2), (2, 2, 4, 4), (0, 0, 0, 2), (0, 0, 2, 2), (0, 0, 2, 0)]
+CROSS_CELLS = [(2, 3, 2, 3), (2, 3, 2, 5), (3, 2, 3, 2), (3, 2, 3, 4), (3, 2, 5, 4), (0, 2, 0, 2), (0, 2, 0, 4), (2, 0, 2, 0), (2, 0, 2, 3), (2, 0, 4, 1)]
+
+def relevant_afl(op, full=False):
+    if full: return [a | i for a in range(8) for i in (0, A_IAE)] + ([a | A_SOCC for a in (0, 7)] if 'copy_ctor' == op else [])
+    if op == 'copy_ctor': return [0, A_SOCC, A_IAE]
+    if op in ('move_ctor',): return [0, A_IAE]
+    if op in ('copy_ctor_alloc', 'move_ctor_alloc'): return [0, A_IAE]
+    if op in ('copy_assign', 'assign_copy'): return [0, A_POCCA, A_IAE, A_POCCA | A_IAE]
+    if op in ('move_assign', 'assign_move'): return [0, A_POCMA, A_IAE, A_POCMA | A_IAE]
+    if op in ('swap', 'nm_swap'): return [0, A_POCS, A_IAE, A_POCS | A_IAE]
+    return [0]
+
+def c07_jobs(tier):
+    js = []
+    ops = ['copy_ctor', 'move_ctor', 'copy_ctor_alloc', 'move_ctor_alloc', 'copy_assign', 'move_assign', 'swap', 'assign_copy', 'assign_move']
+    for op in ops:
+        for afl in relevant_afl(op, full=(tier != 'quick')):
+            for ideq in (1, 0):
+                cs = SAME_CELLS[:4] + ([(0, 0, 2, 2)] if tier == 'quick' else SAME_CELLS[4:])
+                if op in ('assign_copy', 'assign_move', 'copy_ctor', 'move_ctor', 'copy_ctor_alloc', 'move_ctor_alloc'):
+                    cs = cs + (CROSS_CELLS[1:2] + CROSS_CELLS[3:4] if tier == 'quick' else CROSS_CELLS)
+                for (na, nb, ca, cb) in cs:
+                    js.append(two_job(op, 'int', na, nb, ca, cb, afl=afl, ideq=ideq))
+        if tier != 'quick':
+            for afl in relevant_afl(op):
+                for ideq in (1, 0):
+                    js.append(two_job(op, 'Tr', 2, 2, 4, 4, afl=afl, ideq=ideq, followup=1))
+    return _nn(js)
+REG['C07'] = Spec('C07', c07_jobs, tags=['C07'], compile_failure_is_violation=True, explanation=
+    'Allocators carry an id; for every relevant combination of POCCA/POCMA/POCS, is_always_equal, select_on_container_copy_construction, equal/unequal ids, same and different inline capacities and '
+    '(inline/heap, size) states of both operands: after copy/move/allocator-extended construction, copy/move assignment, assign(), swap the id of get_allocator() of both containers equals what the traits prescribe, '
+    'and a follow-up reserve(capacity()+1) on each container must allocate through that current id (ledger). A trait combination that does not compile is reported as a violation (front-end decided).')
+
+def c09_jobs(tier):
+    js = []
+    el = 'Tr'
+    if tier == 'quick':
+        # steal paths (cheap) in every allocator configuration that permits them; element-wise paths where stealing is impossible
+        for op in ['move_ctor', 'move_assign', 'assign_move', 'swap']:
+            for (afl, ideq) in [(0, 1), (A_IAE, 0), ((A_POCMA if 'assign' in op or op == 'move_assign' else A_POCS) if op != 'move_ctor' else 0, 0)]:
+                for (na, nb, ca, cb) in [(2, 2, 2, 4), (2, 2, 4, 4)]:
+                    js.append(two_job(op, el, na, nb, ca, cb, afl=afl, ideq=ideq, witness=['normal return', 'steal path']))
+        for op in ['move_ctor', 'assign_move']:
+            js.append(two_job(op, el, 2, 3, 2, 5, witness=['normal return', 'steal path']))        # N < M, big buffer: steal
+            js.append(two_job(op, el, 3, 2, 3, 4, witness=['normal return', 'steal path']))        # N > M, cap 4 > 3: steal
+            js.append(two_job(op, el, 3, 2, 3, 3, witness=['normal return', 'element-wise path'])) # heap source too small for destination inline: element-wise
+            js.append(two_job(op, el, 0, 2, 0, 3, witness=['normal return', 'steal path']))
+        js.append(two_job('move_ctor_alloc', el, 2, 2, 2, 4, ideq=0, witness=['normal return', 'element-wise path']))
+        js.append(two_job('move_ctor_alloc', el, 2, 2, 2, 4, afl=A_IAE, ideq=0, witness=['normal return', 'steal path']))
+        js.append(two_job('move_assign', el, 2, 2, 2, 4, ideq=0, witness=['normal return', 'element-wise path']))   # unequal, non-propagating
+        js.append(two_job('move_assign', el, 2, 2, 4, 2, witness=['normal return', 'element-wise path']))           # inline source
+        js.append(two_job('swap', el, 2, 2, 4, 2, sizea=2, witness=['normal return']))
+    else:
+        for op in ['move_ctor', 'move_ctor_alloc', 'move_assign', 'assign_move', 'swap', 'nm_swap']:
+            for (afl, ideq) in [(0, 1), (0, 0), (A_IAE, 0), (A_POCMA, 0), (A_POCS, 0), (A_POCMA | A_POCS, 1)]:
+                cs = SAME_CELLS if op in ('move_assign', 'swap', 'nm_swap') else SAME_CELLS + CROSS_CELLS
+                for (na, nb, ca, cb) in cs:
+                    js.append(two_job(op, el, na, nb, ca, cb, afl=afl, ideq=ideq))
+    return _nn(js)
+REG['C09'] = Spec('C09', c09_jobs, tags=['C09'], memsafe=True, explanation=
+    'Move construction / move assignment / assign(&&) / swap on an instrumented element type: whenever the documented steal condition holds (written from the property text: source heap, '
+    'source capacity > destination inline capacity, allocators interchangeable) the destination data() must be the source\'s old data(), capacity preserved, per-object touch counters of the transferred '
+    'elements unchanged, global element events == destruction of the destination\'s previous elements, no allocation, source empty and inlined; otherwise the element-wise result; the moved-from source is valid and reusable.')
